@@ -53,3 +53,38 @@ Theorem run_monotone_in_budget_acd :
   ext_le (E (o_w out2) (o_Xw out2)) (E (o_w out1) (o_Xw out1)).
 Proof. intros A. exact (@outer_loop_budget_monotone A). Qed.
 Print Assumptions run_monotone_in_budget_acd.
+
+(* ---------------------------------------------------------------- GramCD ---------------------------------- *)
+Require Import SK.Gen.KernGram SK.Skel.Generic SK.Skel.GramCD SK.Skel.GramCDProofs.
+(* if one regenerated Gram epoch does not increase the objective, then no iteration of the GramCD skeleton does
+   (an extrapolated point is accepted only when strictly better), for every budget and start *)
+Theorem gramcd_never_worse_than_start :
+  forall {A} score prox value greedy (cfg : @gconfig R) (D : @gdata R) (acc_init : A) acc_step,
+  let p := length (gd_q D) in let negq := map Ropp (gd_q D) in
+  wf_X p (gd_Q D) -> length (gd_Q D) = p ->
+  forall AI : A -> Prop, AI acc_init ->
+  (forall a w g w' g' ext a', AI a -> Cons p (gd_Q D) w negq g -> length w = p ->
+      acc_step a w g = Ok (w', g', ext, a') ->
+      AI a' /\ (ext = true -> Cons p (gd_Q D) w' negq g' /\ length w' = p)) ->
+  (forall w g w' g' opt, Cons p (gd_Q D) w negq g -> length w = p ->
+      @_gram_cd_epoch R _ score prox (gd_Q D) w g greedy = Ok (w', g', opt) ->
+      ext_le (genergy value D w') (genergy value D w)) ->
+  forall w0 out, length w0 = p ->
+  gsolve cfg (gram_kernels score prox value greedy D acc_init acc_step) D (Some w0) = Ok out ->
+  ext_le (genergy value D (gs_w (g_s out))) (genergy value D w0).
+Proof. intros A. exact (@gram_never_worse_than_start A). Qed.
+Print Assumptions gramcd_never_worse_than_start.
+
+(* generic: a body that never increases an energy gives a result no worse than the start and monotone in max_iter *)
+Theorem generic_budget_monotone :
+  forall {F} `{Num F} {St C} (tol : F) (crit : St -> res (C * Ext F)) (body : St -> C -> Ext F -> res St)
+         (objective : St -> res (Ext F)) {V} (E : St -> V) (le : V -> V -> Prop),
+  (forall a, le a a) -> (forall a b c, le a b -> le b c -> le a c) ->
+  forall I : St -> Prop,
+  (forall s c sc s', I s -> crit s = Ok (c, sc) -> body s c sc = Ok s' -> I s') ->
+  (forall s c sc s', I s -> crit s = Ok (c, sc) -> body s c sc = Ok s' -> le (E s') (E s)) ->
+  forall k s0 out1 out2, I s0 ->
+  grun tol crit body objective k s0 = Ok out1 -> grun tol crit body objective (S k) s0 = Ok out2 ->
+  le (E (g_s out2)) (E (g_s out1)).
+Proof. intros F H St C tol crit body objective V. exact (@grun_budget_monotone F H St C tol crit body objective V). Qed.
+Print Assumptions generic_budget_monotone.
